@@ -107,6 +107,8 @@ func widen(t *rapid.T, in []ops.Op) []ops.Op {
 			}
 		}
 	}
+	// character / entity references in text arguments, declared image dimensions <= 0 (refs.go)
+	widenRefs(t, out)
 	return out
 }
 
